@@ -231,6 +231,67 @@ func checkDMWriter(raw json.RawMessage) error {
 	return nil
 }
 
+// DMB256Case: a text of N extended characters (one Base-256 run). It needs N+2 codewords when it
+// fills a symbol exactly (the length field of a run that ends the symbol is a single zero) or when
+// N <= 249, and N+3 otherwise; the smallest admissible symbol that holds it is prescribed.
+type DMB256Case struct {
+	N     int `json:"n"`
+	Shape int `json:"shape"`
+}
+
+func checkDMB256(raw json.RawMessage) error {
+	var c DMB256Case
+	if err := json.Unmarshal(raw, &c); err != nil {
+		return fmt.Errorf("hx: %v", err)
+	}
+	rs := make([]rune, c.N)
+	for i := range rs {
+		rs[i] = rune(0x80 + (i*37+c.N)%0x80)
+	}
+	want := -1
+	for _, k := range dmref.CapacityOrder() {
+		a := dmref.Sizes[k]
+		if c.Shape == 1 && a.Rect() || c.Shape == 2 && !a.Rect() {
+			continue
+		}
+		need := c.N + 2
+		if c.N > 249 && a.Data != c.N+2 {
+			need = c.N + 3
+		}
+		if need <= a.Data {
+			want = k
+			break
+		}
+	}
+	hints := map[gozxing.EncodeHintType]interface{}{}
+	if c.Shape > 0 {
+		hints[gozxing.EncodeHintType_DATA_MATRIX_SHAPE] = shapes[c.Shape]
+	}
+	var bm *gozxing.BitMatrix
+	var err error
+	if e := hx.Safe(func() error {
+		bm, err = datamatrix.NewDataMatrixWriter().Encode(string(rs), gozxing.BarcodeFormat_DATA_MATRIX, 0, 0, hints)
+		return nil
+	}); e != nil {
+		return e
+	}
+	desc := fmt.Sprintf("%d extended characters (one Base-256 run), shape %d", c.N, c.Shape)
+	if want < 0 {
+		if err == nil {
+			return fmt.Errorf("%s: no admissible symbol holds the run, writer returned %dx%d", desc, bm.GetHeight(), bm.GetWidth())
+		}
+		return nil
+	}
+	a := dmref.Sizes[want]
+	if err != nil {
+		return fmt.Errorf("%s: refused (%v), %s holds it", desc, err, dmx.SizeName(a))
+	}
+	if bm.GetWidth() != a.Cols || bm.GetHeight() != a.Rows {
+		return fmt.Errorf("%s: symbol %dx%d, smallest admissible is %s", desc, bm.GetHeight(), bm.GetWidth(), dmx.SizeName(a))
+	}
+	return nil
+}
+
 // DMWriterHistory: the same content encoded several times in one process under different
 // MIN_SIZE / MAX_SIZE hints (none, one of them, both, swapped): every call must honour its own hints.
 type DMWriterHistory struct {
@@ -262,6 +323,7 @@ func TestCheck(t *testing.T) {
 		c.Register("dm_lookup", checkDM)
 		c.Register("dm_writer", checkDMWriter)
 		c.Register("dm_writer_history", checkDMWriterHistory)
+		c.Register("dm_b256", checkDMB256)
 	}, func(c *hx.Ctx) {
 		// published anchor figures against the reference first
 		anchors := []struct{ mode, v, level, want int }{
@@ -395,6 +457,38 @@ func TestCheck(t *testing.T) {
 			}
 		}
 		c.SetExhaustive("dm_writer_digits", false)
+
+		// Base-256 runs around every symbol capacity (the length field changes width at 250 bytes and
+		// vanishes for a run that fills the symbol exactly)
+		{
+			idx := 0
+			for _, a := range dmref.Sizes {
+				for d := -6; d <= 1; d++ {
+					n := a.Data + d
+					if n < 1 || n > 1556 {
+						continue
+					}
+					for shape := 0; shape < 3; shape++ {
+						idx++
+						if !c.Mine(idx) {
+							continue
+						}
+						cs := DMB256Case{N: n, Shape: shape}
+						c.Note("dm_writer_base256_runs", fmt.Sprintf("shape=%d", shape), true, hx.HashS("b256", fmt.Sprint(n, shape)), func() any { return cs })
+						c.Enum("dm_writer_base256_runs", "dm_b256", cs, nil)
+					}
+				}
+			}
+			for _, n := range []int{248, 249, 250, 251, 252} {
+				idx++
+				if c.Mine(idx) {
+					cs := DMB256Case{N: n}
+					c.Note("dm_writer_base256_runs", "length_field_boundary", true, hx.HashS("b256", fmt.Sprint(n, 0)), func() any { return cs })
+					c.Enum("dm_writer_base256_runs", "dm_b256", cs, nil)
+				}
+			}
+			c.SetExhaustive("dm_writer_base256_runs", true)
+		}
 
 		// the same content under changing size hints within one process
 		c.Rapid("dm_writer_hint_histories", c.N(150, 3000), func(t *rapid.T) {
